@@ -696,6 +696,9 @@ def run_packaging(stmts, assignment, layout, kinds, tmp, real=False):
         m = load_packaged(stmts, assignment, layout, tmp, real)
     except Exception as e:
         return [('packaging-independent', '%s: %s' % (type(e).__name__, str(e)[:300]), 'same metamodel as one input')]
+    finally:
+        for e in os.listdir(tmp):
+            shutil.rmtree(os.path.join(tmp, e), ignore_errors=True)
     v = tagged_view(m, kinds=set(kinds))
     d = view_diff(base, v)
     if not real:
@@ -743,9 +746,6 @@ def packaging(ctx):
                         ctx.check(False, clause=clause, input=dict(population=name, statements=stmts, assignment=assignment,
                                                                    layout=layout, kinds=kinds, real=real),
                                   observed=observed, required=required)
-                    if n % 64 == 0:
-                        for e in os.listdir(tmp):
-                            shutil.rmtree(os.path.join(tmp, e), ignore_errors=True)
         ctx.exhausted = complete
     finally:
         shutil.rmtree(tmp, ignore_errors=True)
